@@ -515,9 +515,32 @@ pub fn c01_check(tier: Tier) -> Outcome {
 pub fn c02_check(tier: Tier) -> Outcome {
     let mut out = Outcome::new("C02", "model_checking");
     finish(&mut out, "modea", c02_cells(tier), tier);
+    // write errors (RLIMIT_FSIZE at every block boundary and inside a block): a block that could not be stored must not be acknowledged
+    let mut fs = vec![];
+    for ws in 1..=3u16 {
+        for n in 1..=4usize {
+            let len = (n - 1) * 8 + 5;
+            for clean in [true, false] {
+                let mut x = base_cfg(Role::Receiver, len, 8, ws);
+                x.clean = clean;
+                x.alpha = 3;
+                for j in 0..n {
+                    for off in [0usize, 3] {
+                        if j * 8 < off {
+                            continue;
+                        }
+                        let mut s = cell_spec(&x, 0, MAXE, &["C02"]);
+                        s["fsize"] = json!((j * 8 - off) as u64);
+                        fs.push(s);
+                    }
+                }
+            }
+        }
+    }
+    finish(&mut out, "c13_fsize", fs, tier);
     finish(&mut out, "modeb", crate::e1b_checks::c02_b_cells(tier), tier);
     finish(&mut out, "e2_xfer", crate::e2_xfer::cells(true, tier == Tier::Thorough), tier);
-    out.rule = format!("{} PLUS E1 Mode B: the real receiving Worker + reference sender + faulty network, every placement of up to F faults; PLUS E2: uploads to the real Server over real UDP sockets (both port modes, fault-free, every DATA duplicated, windows sent in reverse order).", modea_rule("upload monitors U1 (no ACK for a block not received in sequence), U2 (the file is read back inside Socket::send at the instant of every ACK emission and must hold exactly blocks 1..j for a j >= k), U3 (after the final ACK the file is the in-order blocks once each)"));
+    out.rule = format!("{} PLUS E1 Mode B: the real receiving Worker + reference sender + faulty network, every placement of up to F faults; PLUS E2: uploads to the real Server over real UDP sockets (both port modes, fault-free, every DATA duplicated, windows sent in reverse order).", modea_rule("upload monitors U1 (no ACK for a block not received in sequence), U2 (the file is read back inside Socket::send at the instant of every ACK emission and must hold exactly blocks 1..j for a j >= k), U3 (after the final ACK the file is the in-order blocks once each); write errors injected with RLIMIT_FSIZE at every block boundary and inside a block"));
     out.assumptions = vec!["the file snapshot at ACK emission is (length, hash) of the whole file; for the > 65535-block run (length, hash of the last 256 bytes)".into()];
     out
 }
